@@ -222,6 +222,12 @@ class InArray(object):
             else:
                 raise CheckerError('line %d: index %r into %s' % (node.lineno, x, self.name))
         a = '%s[%s]' % (self.name, ','.join(parts))
+        if isinstance(self.shape, tuple) and len(ks) < len(self.shape):
+            # fewer indices than dimensions: the sub-array (a view of the same input)
+            sub = InArray(a, shape=tuple(self.shape[len(ks):]))
+            sub.contiguous = self.contiguous
+            interp.path.log.append(('load', self.name, ks))
+            return sub
         if deps:
             ATOM_DEPS[a] = deps
         interp.path.log.append(('load', self.name, ks))
